@@ -78,9 +78,10 @@ CHECKS = {
                 tech="explicit-state history enumeration + exhaustive schedule DFS (hand-rolled executor over hook H3) with linearizability oracle",
                 text="All operation histories up to the completed depth on both backends against a map-with-expiry reference; all "
                      "task interleavings at lock-acquisition granularity of 2-3 task harnesses on the real in-memory store, "
-                     "checked for linearizability; all op-granular merges on SQLite.",
+                     "checked for linearizability; all op-granular merges on SQLite; all statement-granular schedules on SQLite "
+                     "(turnstile at every connection acquisition of the sqlx pool), checked for linearizability.",
                 ref="§4 C13", note="Timestamp::now()/unixepoch() are not owned: TTL 0 / 1 h and a same-second guard make verdicts "
-                                   "clock-independent. No preemption inside SQLite/sqlx. Two recorded findings (known_findings.json)."),
+                                   "clock-independent. No preemption inside a single SQL statement / transaction. One recorded finding (known_findings.json)."),
     "C14": dict(engine="rt_body", cat="exploration", tech="bounded-exhaustive enumeration of frame scripts / Pending placements / headers (hook H1) + loopback chunkings",
                 text="Every limit, body length around the limit, frame composition, <=2 Pending placements, Content-Length variant "
                      "in-process, every chunking (HTTP/1.1) and every DATA-frame composition (HTTP/2) over a real loopback server: never more than "
